@@ -27,12 +27,21 @@ type ssoCase struct {
 	Labels  []string
 	Lenient bool
 	Others  []*spsim.SPDesc // further registered SPs
+	Host    string          // non-empty: host-derived issuer, request sent with this Host header
 
 	XML      string
 	Send     ssoSend
 	PostEdit func(xml string) string // applied to the serialised (and signed) document
 	WireEdit func(s *ssoSend)
 	Msg      *spsim.RedirectMsg
+}
+
+// ssoLocation is the single-sign-on location the IdP advertises for this case.
+func (c *ssoCase) ssoLocation() string {
+	if c.Host != "" {
+		return "https://" + c.Host + "/saml/SSO"
+	}
+	return idpSSO
 }
 
 func (c *ssoCase) label() string { return strings.Join(c.Labels, ",") }
@@ -117,6 +126,12 @@ func conformantSSO(rng *rand.Rand) *ssoCase {
 			a.NotOnOrAfter = tsFrac(now.Add(time.Duration(60+rng.Intn(3600))*time.Second), rng.Intn(10))
 		}
 	}
+	if rng.Intn(6) == 0 {
+		c.Host = []string{"hosta.example", "idp-b.example:8443", "c.idp.example"}[rng.Intn(3)]
+		if a.Destination != "" {
+			a.Destination = "https://" + c.Host + "/saml/SSO"
+		}
+	}
 	c.Req = a
 	if rng.Intn(3) > 0 {
 		c.HasRel = true
@@ -148,7 +163,16 @@ func relayAlphabet(rng *rand.Rand) string {
 
 // run builds the world, puts the request on the wire and returns the call.
 func (c *ssoCase) run(rng *rand.Rand, mod func(e *env.Env)) (*env.Env, *env.Call) {
-	e := env.Static(env.Opts{WantSigned: c.Want})
+	var e *env.Env
+	if c.Host != "" {
+		var err error
+		e, err = env.New(env.Opts{WantSigned: c.Want, HostPath: "/saml"})
+		if err != nil {
+			panic(err)
+		}
+	} else {
+		e = env.Static(env.Opts{WantSigned: c.Want})
+	}
 	e.W.Lenient = c.Lenient
 	mustRegister(e.W, c.SPD, "app-"+c.SPD.EntityID)
 	for k, o := range c.Others {
@@ -171,7 +195,7 @@ func (c *ssoCase) run(rng *rand.Rand, mod func(e *env.Env)) (*env.Env, *env.Call
 	if c.PostEdit != nil {
 		c.XML = c.PostEdit(c.XML)
 	}
-	c.Send = ssoSend{Binding: c.Binding, XML: c.XML, Relay: c.Relay, HasRelay: c.HasRel, Pct: c.Pct, Alg: c.Alg}
+	c.Send = ssoSend{Binding: c.Binding, XML: c.XML, Relay: c.Relay, HasRelay: c.HasRel, Pct: c.Pct, Alg: c.Alg, Host: c.Host}
 	if c.Signed && c.Binding == "redirect" {
 		c.Send.SignKey = c.signer()
 	}
@@ -235,9 +259,15 @@ var c06Deviations = []deviation{
 			}
 		}
 	}},
-	{"issuer_empty", func(rng *rand.Rand, c *ssoCase) { issuerNode(c).Text = "" }},
+	{"issuer_empty", func(rng *rand.Rand, c *ssoCase) {
+		if n := issuerNode(c); n != nil {
+			n.Text = ""
+		}
+	}},
 	{"issuer_unregistered", func(rng *rand.Rand, c *ssoCase) {
-		issuerNode(c).Text = "https://unregistered-" + randHex(rng, 4) + ".example/metadata"
+		if n := issuerNode(c); n != nil {
+			n.Text = "https://unregistered-" + randHex(rng, 4) + ".example/metadata"
+		}
 	}},
 	{"issuer_other_registered_as_lookalike", func(rng *rand.Rand, c *ssoCase) {
 		// the storage resolves look-alike identifiers (case, blanks, trailing slash) to the registered SP
@@ -255,10 +285,15 @@ var c06Deviations = []deviation{
 		default:
 			id = strings.Replace(id, "https://sp", "https://SP", 1)
 		}
-		issuerNode(c).Text = id
+		if n := issuerNode(c); n != nil {
+			n.Text = id
+		}
 	}},
 	{"issuer_wrong_namespace", func(rng *rand.Rand, c *ssoCase) {
 		n := issuerNode(c)
+		if n == nil {
+			return
+		}
 		n.Name = "x:Issuer"
 		n.Attrs = append([]spsim.Attr{{Name: "xmlns:x", Value: spsim.NSP}}, n.Attrs...)
 	}},
@@ -274,6 +309,10 @@ var c06Deviations = []deviation{
 			" https://idp.example/saml/SSO", "https://idp.example/saml/SSO ", "https://idp.example/saml", "/SSO", "SSO", "https://evil-" + randHex(rng, 3) + ".example/saml/SSO",
 		}
 		setAttr(c, "Destination", v[rng.Intn(len(v))])
+	}},
+	{"destination_other_host", func(rng *rand.Rand, c *ssoCase) {
+		c.Host = "hosta.example"
+		setAttr(c, "Destination", []string{"https://hostb.example/saml/SSO", "https://idp.example/saml/SSO", "https://hosta.example.evil.example/saml/SSO", "https://hosta.example:444/saml/SSO", "http://hosta.example/saml/SSO"}[rng.Intn(5)])
 	}},
 	{"conditions_expired", func(rng *rand.Rand, c *ssoCase) {
 		addConditions(rng, c, "", tsFrac(time.Now().Add(farPast(rng)), rng.Intn(7)))
@@ -312,7 +351,13 @@ var c06Deviations = []deviation{
 		c.Signed = false
 		c.PostEdit = func(x string) string {
 			// all edits stay inside the root element and are errors for every XML parser
-			open := strings.Index(x, "AuthnRequest")
+			open := 0
+			for open < len(x) && (x[open] != '<' || (open+1 < len(x) && x[open+1] == '?')) {
+				open++
+			}
+			if open >= len(x)-20 {
+				return "<broken"
+			}
 			switch rng.Intn(6) {
 			case 0: // truncate inside the root
 				cut := open + 12 + rng.Intn(len(x)-open-13)
@@ -327,7 +372,7 @@ var c06Deviations = []deviation{
 				i := strings.Index(x[open:], ">") + open
 				return x[:i+1] + "&undefined;" + x[i+1:]
 			case 4: // attribute without quotes
-				return strings.Replace(x, `Version="2.0"`, `Version=2.0`, 1)
+				return strings.Replace(x, `IssueInstant="`, `IssueInstant=x"`, 1)
 			default: // missing end tag of the root
 				i := strings.LastIndex(x, "</")
 				return x[:i]
@@ -338,7 +383,9 @@ var c06Deviations = []deviation{
 		c.Signed = false
 		c.Binding = "post"
 		// text that is not base64 at all
-		c.WireEdit = func(s *ssoSend) { s.rawSAMLRequest = []string{"!!!not*base64!!!", "<AuthnRequest/>", "%%%", "ab=cd=", "a b c d e"}[rng.Intn(5)] }
+		c.WireEdit = func(s *ssoSend) {
+			s.rawSAMLRequest = []string{"!!!not*base64!!!", "<AuthnRequest/>", "%%%", "ab=cd=", "a b c d e"}[rng.Intn(5)]
+		}
 	}},
 	{"not_inflatable", func(rng *rand.Rand, c *ssoCase) {
 		c.Signed = false
